@@ -190,7 +190,7 @@ GATE = re.compile(r"\b(Admitted|admit|Axiom|Axioms|Parameter|Parameters|Conjectu
 def grep_gate():
     """No Admitted/admit/Axiom/... anywhere in the development (comments are stripped first)."""
     bad = []
-    for f in sorted(glob.glob(COQ + "/**/*.v", recursive=True)) + [COQ + "/_CoqProject"]:
+    for f in sorted(glob.glob(COQ + "/**/*.v", recursive=True)):
         txt = open(f).read()
         txt = re.sub(r"\(\*.*?\*\)", " ", txt, flags=re.S)
         for i, line in enumerate(txt.split("\n")):
@@ -200,10 +200,20 @@ def grep_gate():
     return bad
 
 
+COQPROJECT_HEAD = """-Q . CppUVerif
+-arg -w -arg -notation-overridden,-deprecated-hint-without-locality,-deprecated-instance-without-locality,-extraction-reserved-identifier,-extraction-opaque-accessed,-deprecated-syntactic-definition
+"""
+
+
 def coq_makefile():
-    mk = os.path.join(COQ, "Makefile")
+    """_CoqProject lists every .v under coq/ (regenerated when the set of files changes)."""
+    files = sorted(os.path.relpath(f, COQ) for f in glob.glob(COQ + "/**/*.v", recursive=True))
+    text = COQPROJECT_HEAD + "\n".join(files) + "\n"
     cp = os.path.join(COQ, "_CoqProject")
-    if not os.path.exists(mk) or os.path.getmtime(mk) < os.path.getmtime(cp):
+    mk = os.path.join(COQ, "Makefile")
+    if not os.path.exists(cp) or open(cp).read() != text or not os.path.exists(mk):
+        with open(cp, "w") as f:
+            f.write(text)
         sh(["coq_makefile", "-f", "_CoqProject", "-o", "Makefile"], cwd=COQ, check=True)
 
 
@@ -494,6 +504,8 @@ def main_check(P, argv):
             if a.tier == "quick":
                 scns += list(P.generate("thorough", rng))
     res = decide(P, prop, model, exes, scns, ev, write_replay, viol, known_hits, broken, per_timeout=getattr(P, "PER_TIMEOUT", 20.0))
+    if hasattr(P, "evidence_extra"):
+        P.evidence_extra(ev["coverage"])
     if broken and not viol:
         path = write_replay("broken_proof", {"property": prop, "what": broken[0][0], "detail": [b[1] for b in broken],
                                              "theorems_checked": [t for t, _ in theorems]})
@@ -547,6 +559,8 @@ def decide(P, prop, model, exes, scns, ev, write_replay, viol, known_hits, broke
                     bad = "implementation crashed/hung/sanitizer report: " + o
             elif sp[k] != "1":
                 bad = "spec false on the implementation's observation"
+            elif hasattr(P, "extra_oracle"):
+                bad = P.extra_oracle(s, o, fl)   # independent python-side judge (None = fine)
             if bad:
                 sig = P.signature(s, o) if hasattr(P, "signature") else s
                 fails.setdefault(sig, (s, o, fl, bad, mobs[k]))
